@@ -61,13 +61,11 @@ class Conv:
         if type(x) is str:
             return f"(AStr {gn(self.intern('s:' + x))})"
         if type(x) is float:
-            if x != x or (abs(x) != float("inf") and x == int(x)):
-                raise OutOfDomain("integral float / nan")
-            return f'(AOth "float" {gn(self.intern("f:" + repr(x)))})'
+            if x != x:
+                raise OutOfDomain("nan")
+            return f'(AOth "float" {gn(self.intern("f:" + repr(x + 0.0)))})'      # -0.0 == 0.0
         if type(x) is complex:
-            if x.imag == 0:
-                raise OutOfDomain("real complex")
-            return f'(AOth "complex" {gn(self.intern("c:" + repr(x)))})'
+            return f'(AOth "complex" {gn(self.intern("c:" + repr(x + 0)))})'
         if type(x) is bytes:
             return f'(AOth "bytes" {gn(self.intern("b:" + repr(x)))})'
         if x is Ellipsis:
@@ -506,9 +504,7 @@ def twin_match(core, t, v, ignore):
         if any(k not in vars(v) for k in keys):
             return None
         return _twin_merge(core, v, [twin_match(core, vars(t)[k], vars(v)[k], ignore) for k in keys])
-    if isinstance(v, (ast.AST, list)):
-        return None
-    return (v, {}) if v == t else None
+    return (v, {}) if type(v) is type(t) and v == t else None
 
 
 def twin_findall(core, template, root):
